@@ -58,8 +58,8 @@ class SimData(DFData):
 class Observer(Controller):
     """A passive monitoring controller: records net.converged and a result digest per step."""
 
-    def __init__(self, net, in_service=True, order=99, level=0, **kwargs):
-        super().__init__(net, in_service=in_service, order=order, level=level, initial_run=False, **kwargs)
+    def __init__(self, net, in_service=True, order=99, level=0, initial_run=False, **kwargs):
+        super().__init__(net, in_service=in_service, order=order, level=level, initial_run=initial_run, **kwargs)
         self.seen = []
 
     def is_converged(self, net):
@@ -284,7 +284,9 @@ def _build_world(trace, with_observer):
                      initial_run=c["initial_run"])
     obs = None
     if with_observer:
-        obs = Observer(net)
+        # (alone in the net the passive observer would switch the loop's initial calculation off and nothing would
+        # ever be calculated: it only stays without initial run next to controllers that act)
+        obs = Observer(net, initial_run=("controller" not in net or len(net.controller) == 0))
     return net, ds, obs
 
 
